@@ -36,7 +36,11 @@ Inductive kind :=
 | KOk         (* a valid ADF file; its node /D holds the link nodes listed in wlinks *)
 | KMissing    (* no such file *)
 | KGarbage    (* a regular file that is neither ADF nor HDF5 (rejected by cgio_check_file) *)
-| KBadHdr     (* starts with the ADF signature, header unreadable: cgio_check_file says ADF, ADF_Database_Open fails late *)
+| KBadHdr (code : nat)
+              (* starts with the ADF signature (cgio_check_file says ADF) and ADF_Database_Open, AFTER ADFI_open_file opened it,
+                 refuses it with ADF error `code` through one of its Open_Error exits: header unreadable or too short, boundary
+                 tags damaged, major revision letter unknown, pre-numbering what-string, minor revision unparsable or newer than
+                 the library's, root pointer out of range, format letters undefined, type sizes that do not fit the format *)
 | KDir.       (* a directory: rejected by cgio_check_file; at the ADF level open(O_RDONLY) succeeds, open(O_RDWR) fails *)
 
 (* wlinks: file a has, under /D, a link node L<b> to F<b>:/D (the path exists in every valid file);
@@ -234,7 +238,7 @@ Definition chase (v : variant) (fuel : nat) (w : world) (a : adf) (cur n : nat) 
         if (length (tab a) <=? li) || Nat.eqb (in_use (slot_at a li)) 0 then Some (a, None) else Some (a, Some li)
     | None =>
     match kind_of w n with
-    | KOk | KBadHdr =>                                              (* ADFI_find_file: cgio_check_file says ADF *)
+    | KOk | KBadHdr _ =>                                            (* ADFI_find_file: cgio_check_file says ADF *)
         match find_name (tab a) n with
         | Some li => let a1 := link_add a cur li true in
                      if dang then Some (a1, None)                                   (* LINK_TARGET_NOT_THERE *)
@@ -287,6 +291,15 @@ Definition cgio_open_file (v : variant) (fuel : nat) (w : world) (s : io) (n : n
              Some (mkio a1 (upd l1 k (Some idx)) (S (nopen s)), Some (S k))
          end
   end.
+
+(* a file the world marks as one the open paths refuse, and "the library holds what it held": the descriptor ledger, every
+   reference count, and every entry in use (name, descriptor, links[]) are as they were.  (NOT literally the same state: a
+   refused open may have allocated or grown ADF_file[], may free it again when nothing is open, forgets the one-entry link
+   cache in ADFI_close_file, and leaves attribute bytes behind in the entry it used for a moment.) *)
+Definition refused (k : kind) : bool := match k with KOk => false | _ => true end.
+Definition same_holdings (a a' : adf) : Prop :=
+  ledger a' = ledger a /\
+  forall j, in_use (slot_at a' j) = in_use (slot_at a j) /\ (in_use (slot_at a j) <> 0 -> slot_at a' j = slot_at a j).
 
 Definition cgio_close_file (v : variant) (fuel : nat) (s : io) (c : nat) : option (io * cres) :=
   match c with
